@@ -71,9 +71,11 @@ fn write_rspfile(rspfile: &RspFile) -> anyhow::Result<()> {
 fn extract_showincludes(output: Vec<u8>) -> (Vec<String>, Vec<u8>) {
     let mut filtered_output = Vec::new();
     let mut includes = Vec::new();
-    let mut first_line = true;
-    for line in output.split(|&c| c == b'\n') {
-        if let Some(include) = line.strip_prefix(b"Note: including file: ") {
+    // Each line keeps its own terminator, so that dropping a note (terminated
+    // or not) never takes a newline away from the line before it.
+    for line in output.split_inclusive(|&c| c == b'\n') {
+        let text = line.strip_suffix(b"\n").unwrap_or(line);
+        if let Some(include) = text.strip_prefix(b"Note: including file: ") {
             let start = include.iter().position(|&c| c != b' ').unwrap_or(0);
             let end = if include.ends_with(&[b'\r']) {
                 include.len() - 1
@@ -83,10 +85,6 @@ fn extract_showincludes(output: Vec<u8>) -> (Vec<String>, Vec<u8>) {
             let include = &include[start..end];
             includes.push(unsafe { String::from_utf8_unchecked(include.to_vec()) });
         } else {
-            if !first_line {
-                filtered_output.push(b'\n');
-            }
-            first_line = false;
             filtered_output.extend_from_slice(line);
         }
     }
